@@ -11,7 +11,7 @@ import copy
 
 from .model import Fn, walk, is_var, CHILD_KEYS, LIST_KEYS
 
-MAX_BLOCKS = 40
+MAX_BLOCKS = 400
 MAX_DEPTH = 3
 
 
